@@ -29,6 +29,11 @@ claim("C03", "effect/purity analysis of the resolved call-graph closure + deep t
 claim("C18", "panic-capable-construct and allocation ledger over the loader's resolved call-graph closure (MIR Assert terminators, panicking std APIs, explicit capacities), mechanical guards + audited table",
       "Sound static decision of the no-panic and no-header-sized-allocation clauses of C18 for every byte sequence: every construct in the loader closure that can panic (bounds/overflow/division asserts, panic!/todo!/unwrap/expect, indexing and range slicing, length-precondition APIs, generic integer arithmetic) or allocate by an explicit size is mechanically discharged, matched to an audited entry with a shape check, or reported. Termination is not decided. Genuine defect sites are listed in known_findings.txt until repaired.")
 
+claim("C20", "abstract interpretation of each setter's store into a clamp domain (max/min/clamp with constants) + write-set and return-value def-use rules over rustc MIR",
+      "Sound static decision for every finite argument: each range-limited setter stores exactly the documented clamp of its argument into its own field (and the indexed element), unrestricted setters store the identity, getters return that field, Condition::default / load_model give the stated defaults, load_model's write set excludes user-level settings and Engine::load applies no setter. The clamp domain is exact, so this is the full statement of C20, not a sample of arguments.")
+claim("C16", "exact rational polynomial normal forms (log-linear slope vs ln10/20, inverse getter) + field-sensitive forward taint with closure bodies from every read of the vocoder's volume + exhaustive output-store rule, over rustc MIR",
+      "Sound static decision that set/get volume are an inverse dB pair with slope ln10/20, that every store into the output buffer (both filter families) is (volume-independent value) x volume, and that volume reaches no other store, call or branch in the vocoder; hence every sample scales by 10^(v/20) and nothing else changes.")
+
 
 def main():
     props = [json.loads(l) for l in open(os.path.join(VERIF, "properties.jsonl"))]
